@@ -2,7 +2,7 @@
   C15 helper lemmas (binary64): what is left of the covariance once every operation rounds.
 
   * `evalF_timePlusInv_residue`: an expression `time variable + (no time variables)` — the
-    shape of every grid time `start + k·dt` and of every half-/quarter-step time `t + dt/4` —
+    shape of every grid time `start + k·dt` and of every half-step or quarter-step time `t + dt/4` —
     differs from its shifted version by exactly τ up to ONE rounding on each side.
   * `evalF_diffOnly`: an expression in which times only occur as differences `t₁ - t₂`
     (every float → step rounding site) is bit-identical under an exact shift of its inputs.
@@ -31,13 +31,16 @@ theorem evalF_timePlusInv_residue (m : List Bool) (τ : Rat) (env : Nat → Rat)
     |evalF (shiftF m τ env) ienv (.add (.var i) b) - τ - evalF env ienv (.add (.var i) b)|
       ≤ (1 / 2 ^ 53) * (|env i + τ + evalF env ienv b| + |env i + evalF env ienv b|) := by
   have hB := evalF_noTime m τ env ienv b hb
-  simp only [evalF, evalOps, floatOps] at hB ⊢
-  rw [hB]
   have hx : shiftF m τ env i = env i + τ := by
     simp only [shiftF, shiftEnv, hi, if_true]
-  rw [hx]
-  set B := evalOps floatOps env ienv b with hBdef
-  unfold fadd
+  have key : evalF (shiftF m τ env) ienv (.add (.var i) b)
+      = rnd (env i + τ + evalF env ienv b) := by
+    show fadd (shiftF m τ env i) (evalF (shiftF m τ env) ienv b) = _
+    rw [hx, hB]
+    rfl
+  have key2 : evalF env ienv (.add (.var i) b) = rnd (env i + evalF env ienv b) := rfl
+  rw [key, key2]
+  generalize evalF env ienv b = B
   have e1 := OQuPyVerif.FloatGrid.rnd_err (env i + τ + B)
   have e2 := OQuPyVerif.FloatGrid.rnd_err (env i + B)
   have : rnd (env i + τ + B) - τ - rnd (env i + B)
@@ -118,7 +121,7 @@ theorem evalF_diffOnly (m : List Bool) (τ : Rat) (env : Nat → Rat) (ienv : Na
         unfold fsub
         congr 1
         ring
-      · simp [hi, hj]
+      · simp only [hi, hj, Bool.false_eq_true, if_false]
     · have h' : diffOnly m a = true ∧ diffOnly m b = true := by
         cases a <;> cases b <;>
           first
